@@ -11,6 +11,14 @@ import Astits.Proofs.MJD.Chunk4
 import Astits.Proofs.MJD.Chunk5
 import Astits.Proofs.MJD.Chunk6
 import Astits.Proofs.MJD.Chunk7
+import Astits.Proofs.MJD.ChunkI0
+import Astits.Proofs.MJD.ChunkI1
+import Astits.Proofs.MJD.ChunkI2
+import Astits.Proofs.MJD.ChunkI3
+import Astits.Proofs.MJD.ChunkI4
+import Astits.Proofs.MJD.ChunkI5
+import Astits.Proofs.MJD.ChunkI6
+import Astits.Proofs.MJD.ChunkI7
 import Astits.Generated.Exprs
 namespace Astits.C15
 open MJD
@@ -78,6 +86,66 @@ theorem mjd_nat (n : Nat) (hn : n < 50457) :
   · exact key 6 38400 (2005, 4, 19) (2022, 10, 27) 6400 chunk6 s6 (by omega) (by omega)
   · exact key 7 44800 (2022, 10, 27) (2038, 4, 23) 5657 chunk7 s7 (by omega) (by omega)
 
+/-- **the model functions themselves** (Int-valued, as executed against the real code): for every day number
+n < 50457, with mjd = 15079 + n and (y, m, d) the civil date n days after 1900-03-01:
+`decodeYMD mjd = (y, m, d)`; the model of Go's `time.Date(y, m, d)` is `(mjd − 40587)·86400` seconds after the epoch;
+the model of Go's `Year/Month/Day` of that instant is `(y, m, d)`; `encodeMJD y m d = mjd` -/
+theorem mjd_model (n : Nat) (hn : n < 50457) :
+    let date := Spec.dateAfter n
+    decodeYMD ((15079 + n : Nat) : Int) = toI date ∧
+    unixOfDate (date.1 : Int) (date.2.1 : Int) (date.2.2 : Int) = (((15079 + n : Nat) : Int) - 40587) * 86400 ∧
+    civilFromDays (((15079 + n : Nat) : Int) - 40587) = toI date ∧
+    encodeMJD (date.1 : Int) (date.2.1 : Int) (date.2.2 : Int) = ((15079 + n : Nat) : Int) := by
+  intro date
+  obtain ⟨s1, s2, s3, s4, s5, s6, s7⟩ := starts
+  have key : ∀ (start : Nat) (d : Nat × Nat × Nat) (cnt : Nat), walkI cnt (15079 + start) d = true →
+      stepN start (1900, 3, 1) = d → start ≤ n → n < start + cnt → dayOK (15079 + n) (stepN n (1900, 3, 1)) = true := by
+    intro start d cnt hw hs hlo hhi
+    have := walkI_spec cnt (15079 + start) d hw (n - start) (by omega)
+    have e1 : 15079 + start + (n - start) = 15079 + n := by omega
+    have hn' : start + (n - start) = n := by omega
+    have e2 : stepN n (1900, 3, 1) = stepN (n - start) d := by rw [← hs, ← stepN_add, hn']
+    rw [e1] at this
+    rw [e2]; exact this
+  have sz : stepN 0 (1900, 3, 1) = (1900, 3, 1) := by simp [stepN]
+  have hday : dayOK (15079 + n) (stepN n (1900, 3, 1)) = true := by
+    by_cases h0 : n < 6400
+    · exact key 0 (1900, 3, 1) 6400 chunkI0 sz (Nat.zero_le n) (by omega)
+    by_cases h1 : n < 12800
+    · exact key 6400 (1917, 9, 8) 6400 chunkI1 s1 (by omega) (by omega)
+    by_cases h2 : n < 19200
+    · exact key 12800 (1935, 3, 18) 6400 chunkI2 s2 (by omega) (by omega)
+    by_cases h3 : n < 25600
+    · exact key 19200 (1952, 9, 24) 6400 chunkI3 s3 (by omega) (by omega)
+    by_cases h4 : n < 32000
+    · exact key 25600 (1970, 4, 3) 6400 chunkI4 s4 (by omega) (by omega)
+    by_cases h5 : n < 38400
+    · exact key 32000 (1987, 10, 11) 6400 chunkI5 s5 (by omega) (by omega)
+    by_cases h6 : n < 44800
+    · exact key 38400 (2005, 4, 19) 6400 chunkI6 s6 (by omega) (by omega)
+    · exact key 44800 (2022, 10, 27) 5657 chunkI7 s7 (by omega) (by omega)
+  have hd : date = stepN n (1900, 3, 1) := dateAfter_eq n
+  rw [hd]
+  unfold dayOK at hday
+  simp only [Bool.and_eq_true, beq_iff_eq] at hday
+  exact ⟨hday.1.1.1, hday.1.1.2, hday.1.2, hday.2⟩
+
+/-- **decoding five bytes**: for every MJD in 15079..65535 and any BCD-coded time of day, `parseDVBTime` returns
+the instant `(mjd − 40587)` days after the Unix epoch plus the decoded time of day -/
+theorem parseDVBTime_spec (m1 m0 h mi s : Nat) (hm0 : m0 < 256) (hlo : 15079 ≤ m1 * 256 + m0) (hhi : m1 * 256 + m0 ≤ 65535) :
+    parseDVBTime.val [m1, m0, h, mi, s] =
+      .ok ((((m1 * 256 + m0 : Nat) : Int) - 40587) * 86400 + durationSecondsOfBytes h mi s) := by
+  have hn : m1 * 256 + m0 - 15079 < 50457 := by omega
+  have hm := mjd_model (m1 * 256 + m0 - 15079) hn
+  have e : 15079 + (m1 * 256 + m0 - 15079) = m1 * 256 + m0 := by omega
+  rw [e] at hm
+  obtain ⟨hdec, hunix, _, _⟩ := hm
+  have hc : (m1 : Int) * 256 + (m0 : Int) = ((m1 * 256 + m0 : Nat) : Int) := by simp
+  simp only [parseDVBTime, parseDVBDurationSeconds, P.val, bind, pure, It.nextBytes, List.length_cons, List.length_nil]
+  simp
+  rw [hc, hdec]
+  simpa [toI] using hunix
+
 /-! #### BCD -/
 
 /-- every raw byte decodes digit-wise: high nibble × 10 + low nibble -/
@@ -106,6 +174,24 @@ theorem duration_seconds_roundtrip (h m s : Nat) (hh : h < 100) (hm : m < 60) (h
     rw [Nat.mod_eq_of_lt (by omega : h < 256), bcd_eq_spec h hh, bcd_eq_spec m (by omega), bcd_eq_spec s (by omega)]
   · unfold durationSecondsOfBytes parseDVBDurationByte Spec.bcd
     omega
+
+/-- **encoding**: for every day in range and every second of the day, `writeDVBTime` emits the 16-bit MJD and the six BCD
+digits of the time of day (the five bytes of EN 300 468) -/
+theorem writeDVBTime_spec (n sec : Nat) (hn : n < 50457) (hs : sec < 86400) :
+    writeDVBTime ((((15079 + n : Nat) : Int) - 40587) * 86400 + (sec : Int)) = Spec.dvbTimeBytes (15079 + n) sec := by
+  obtain ⟨_, _, hciv, henc⟩ := mjd_model n hn
+  have hdays : ((((15079 + n : Nat) : Int) - 40587) * 86400 + (sec : Int)) / 86400 = ((15079 + n : Nat) : Int) - 40587 := by omega
+  have hsecs : ((((15079 + n : Nat) : Int) - 40587) * 86400 + (sec : Int)) % 86400 = (sec : Int) := by omega
+  unfold writeDVBTime
+  simp only [hdays, hsecs, hciv, toI, henc]
+  have hm : (((15079 + n : Nat) : Int) % 65536).toNat = 15079 + n := by omega
+  rw [hm]
+  have hd := (duration_seconds_roundtrip (sec / 3600) (sec / 60 % 60) (sec % 60) (by omega) (by omega) (by omega)).1
+  have hsum : sec / 3600 * 3600 + sec / 60 % 60 * 60 + sec % 60 = sec := by omega
+  simp only [hsum] at hd
+  have hcast : ((sec : Int) * 1000000000) = ((sec : Nat) : Int) * 1000000000 := rfl
+  rw [hd]
+  simp [Spec.dvbTimeBytes, beBytes]
 
 /-- the regenerated Go expressions of today are the model's -/
 theorem generated_parse_byte : ∀ b : Fin 256, Generated.parseDVBDurationByte b.val = parseDVBDurationByte b.val := by
